@@ -339,7 +339,8 @@ Definition step (fixed : bool) (s : st) (o : op) : st * bool :=
 (* what the VM and the wrappers of lib/srfi/18/interface.scm allow: a primitive runs only in a
    live, non-waiting current thread (after a primitive returned #f the wrapper's next instruction
    is yield!); thread-start! only on a new thread; the scheduler can be entered at any instruction
-   boundary.  thread-terminate! of a paused thread with a pending timeout is excluded (see notes). *)
+   boundary.  thread-terminate! is allowed on EVERY thread (round 4: the exclusion of a paused victim
+   with a pending timeout is gone; the repaired sexp_thread_terminate clears its wait flags). *)
 Definition enabled (s : st) (o : op) : bool :=
   match o with
   | OSched _ _ => true
@@ -347,7 +348,6 @@ Definition enabled (s : st) (o : op) : bool :=
       live (th s (cur s)) && negb (waitp (th s (cur s))) &&
       match o with
       | OStart t => negb (started s t)
-      | OTerminate t => Nat.eqb t (cur s) || negb (memb t (paused s)) || negb (timed (th s t))
       | _ => true
       end
   end.
